@@ -48,6 +48,9 @@ type ExtSpec struct {
 	ErrMod int `json:"err_mod,omitempty"`
 	// NamePool > 0 draws package names from a pool of that size (so that sort keys tie).
 	NamePool int `json:"name_pool,omitempty"`
+	// FindingsMod > 0: the extractor also puts a finding into the inventory it returns for the
+	// files whose path hashes to 0 mod FindingsMod (reference "EXT-<n>", extra = the file's path).
+	FindingsMod int `json:"findings_mod,omitempty"`
 	// PrefixNames draws names and versions from pools whose members are prefixes of one
 	// another and continue with characters on both sides of '/' and of the digits (sort keys
 	// that only a field-by-field comparison orders correctly).
@@ -131,6 +134,15 @@ func (s ExtSpec) ExpectedPackages(filePath string) []PkgKey {
 		out = append(out, PkgKey{Name: name, Version: ver, Extractor: s.Name, Locations: filePath})
 	}
 	return out
+}
+
+// ExpectedFinding returns the (reference, extra) of the finding the extractor returns for the
+// path, ok=false when it returns none.
+func (s ExtSpec) ExpectedFinding(filePath string) (ref, extra string, ok bool) {
+	if s.FindingsMod <= 0 || Hash(s.Name+"|f|"+filePath)%uint32(s.FindingsMod) != 0 {
+		return "", "", false
+	}
+	return fmt.Sprintf("EXT-%d", Hash(s.Name+"|r|"+filePath)%3), s.Name + ":" + filePath, true
 }
 
 // ExpectedErr tells whether Extract returns an error for the path.
@@ -274,6 +286,12 @@ func (e *FSExtractor) Extract(ctx context.Context, input *filesystem.ScanInput) 
 	inv := inventory.Inventory{}
 	for _, k := range e.Spec.ExpectedPackages(input.Path) {
 		inv.Packages = append(inv.Packages, &extractor.Package{Name: k.Name, Version: k.Version, Locations: []string{input.Path}})
+	}
+	if ref, extra, ok := e.Spec.ExpectedFinding(input.Path); ok {
+		inv.Findings = append(inv.Findings, &detector.Finding{
+			Adv:   &detector.Advisory{ID: &detector.AdvisoryID{Publisher: "EXT", Reference: ref}, Title: "extractor finding " + ref},
+			Extra: extra,
+		})
 	}
 	if readErr != nil {
 		return inventory.Inventory{}, fmt.Errorf("read failed: %w", readErr)
